@@ -83,5 +83,17 @@ def step (s : Store) (toks : List String) : Store × String :=
     | some op => finO (stepFull s op) s
     | none => (s, "bad-op")
 
-def run : IO Unit := Um.Drv.loop Store.init step
+/-- driver state: the store and an optional snapshot (`snap` / `restart` model a broker process
+that restarts from an earlier snapshot and runs epoch recovery: `MemBrokerService::recover_epoch`
+passes `max_epoch + 1`, `MemoryStorage::recover_epoch` adds another `+ 1`) -/
+def step2 (st : Store × Option Store) (toks : List String) : (Store × Option Store) × String :=
+  match toks with
+  | ["snap"] => ((st.1, some st.1), s!"snap g={st.1.globalEpoch}")
+  | ["restart", e] =>
+    match e.toNat?, st.2 with
+    | some e, some snap => let s' := recoverEpoch snap (e + 1); ((s', st.2), s!"OK g={s'.globalEpoch}")
+    | _, _ => (st, "bad-op")
+  | _ => let (s', out) := step st.1 toks; ((s', st.2), out)
+
+def run : IO Unit := Um.Drv.loop (Store.init, none) step2
 end Um.Drv.Broker
